@@ -73,7 +73,7 @@ PROPS.update({
                 mc_version('triples', ['InvTransitive'], 'MC_Triples', thorough_size='small')],
         gens=[dict(scenario='vorder', n=dict(quick=6000, thorough=100000))],
         events=['vcmp', 'vsort'],
-        rule='cases = every ordered pair of the version universe of MC_Version (3 or 6 tuples x all prerelease lists of length <= 2 over {0,2,10,a,B,a-,a0,1a,-}) (exhaustive) + seeded pairs and lists (<= 12) with components up to MAX_SAFE_INTEGER, numeric identifiers up to 2^64-1, identifier lists up to 6, confusable identifiers, build metadata; distinct = distinct case text',
+        rule='cases = every ordered pair of the version universe of MC_Version (3 or 6 tuples x all prerelease lists of length <= 2 over {0,2,10,a,B,a-,a0,1a,-,2^64-1,2^64-2}) (exhaustive) + seeded pairs and lists (<= 12) with components up to MAX_SAFE_INTEGER, numeric identifiers up to 2^64-1, identifier lists up to 6, confusable identifiers, build metadata; distinct = distinct case text',
         exhaustive_models=True, assumptions=COMMON_ASSUME),
     'C05': dict(models=VTEXT_MODELS, gens=[dict(scenario='vtext', n=dict(quick=12000, thorough=120000))],
                 events=['vparse'], rule=VTEXT_RULE, exhaustive_models=True, assumptions=COMMON_ASSUME, chunks=14),
@@ -135,6 +135,7 @@ PROPS['C03']['do'] = ['sat']
 PROPS['C03']['then'] = ['sat']
 PROPS['C11']['models'].append(mc_syntax('pairs', 'MC_Syntax_pairs', 8))
 PROPS['C11']['gens'].append(dict(scenario='rtext', n=dict(quick=2000, thorough=40000)))
+PROPS['C11']['gens'].append(dict(scenario='rdiffmin', n=dict(quick=2000, thorough=40000)))
 PROPS['C11']['then'] = ['minv']
 PROPS['C11']['rule'] += '; + parsed range texts (pairs of comparators of MC_Syntax, seeded random texts), min_version of each'
 PROPS.update({
@@ -170,7 +171,8 @@ PROPS.update({
                      invariants=['InvSpecTotal', 'InvRangeTextTotal']),
                 dict(name='MC_VText_a', module='MC_VText', constants=dict(SymbolSet='a', MaxLive=5, MaxExtra=1, Emit=True), thorough=dict(MaxLive=6),
                      invariants=VTEXT_INVS, case_extra={'op': 'soup'})],
-        gens=[dict(scenario='soup', n=dict(quick=8000, thorough=150000)), dict(scenario='timing', n=dict(quick=16384, thorough=65536)),
+        gens=[dict(scenario='soup', n=dict(quick=8000, thorough=150000)), dict(scenario='vtext', n=dict(quick=5000, thorough=60000), case_extra={'op': 'soup'}),
+              dict(scenario='timing', n=dict(quick=16384, thorough=65536)),
               dict(scenario='sessions', n=dict(quick=1000, thorough=20000)), dict(scenario='ranges', n=dict(quick=1500, thorough=30000))],
         events=['soup', 'timing', 'vparse', 'rparse', 'isect', 'diff', 'any', 'all', 'minv', 'print', 'panic'],
         rule='cases = every string of up to 3 (thorough: 4, half of the first tokens) tokens over a 26-token alphabet covering every token class (digits, numbers at and above MAX_SAFE_INTEGER and 2^64, . - + * x v ^ ~ > < = | || blank tab newline a e-acute ` - ` 1.2.3) and every string of the version-text model (exhaustive); + every operator form on numbers at the limits, lengths 255-1024 ending in 1-4 byte characters, damaged range texts and versions, token soup (seeded); each string goes through both parsers and every operation is applied to what they return, against itself and the five most recent values, and to the results; + sessions feeding results back; + the same token repeated to n..8n bytes for the time rule; build has overflow checks and debug assertions on; a panic, abort or time-out is a violation; distinct = distinct case text',
